@@ -179,6 +179,48 @@ func c17Keys(m map[string]any) string {
 	return strings.Join(keys, ",")
 }
 
+var c17MatchKeys = map[string]bool{"filename": true, "matchNumber": true, "offset": true, "line": true,
+	"column": true, "value": true, "replacement": true, "variables": true}
+
+// c17Known: a match object restricted to the documented member names
+func c17Known(o map[string]any) map[string]any {
+	out := map[string]any{}
+	for k, v := range o {
+		if c17MatchKeys[k] {
+			out[k] = v
+		}
+	}
+	return out
+}
+
+// c17Prune: the document with undocumented members of the match objects removed; returns their names
+func c17Prune(doc any) (any, string) {
+	arr, ok := doc.([]any)
+	if !ok {
+		return doc, ""
+	}
+	extra := map[string]bool{}
+	out := make([]any, len(arr))
+	for i, e := range arr {
+		if o, ok := e.(map[string]any); ok {
+			for k := range o {
+				if !c17MatchKeys[k] {
+					extra[k] = true
+				}
+			}
+			out[i] = c17Known(o)
+		} else {
+			out[i] = e
+		}
+	}
+	names := []string{}
+	for k := range extra {
+		names = append(names, k)
+	}
+	sort.Strings(names)
+	return out, strings.Join(names, ",")
+}
+
 func c17CheckInt(path string, v any, want int) string {
 	n, ok := v.(json.Number)
 	if !ok || string(n) != strconv.Itoa(want) {
@@ -255,7 +297,9 @@ func c17CheckDoc(doc any, ms engine.Matches) string {
 		if m.Replacement.HasValue() {
 			want = "column,filename,line,matchNumber,offset,replacement,value,variables"
 		}
-		if c17Keys(o) != want {
+		// the documented members must be exactly these; members with other names (a later
+		// extension of the format) are not the property's business and are reported separately
+		if c17Keys(c17Known(o)) != want {
 			return p + ": members [" + c17Keys(o) + "], expected [" + want + "]"
 		}
 		checks := []string{
@@ -364,7 +408,11 @@ func opJson(fields []string) string {
 			} else {
 				out = append(out, "FIELDS ok")
 			}
-			out = append(out, "ITREE "+c17TreeS(d1), "TREE "+c17Canon(d1))
+			pruned, extra := c17Prune(d1)
+			if extra != "" {
+				out = append(out, "EXTRA "+hx(extra))
+			}
+			out = append(out, "ITREE "+c17TreeS(pruned), "TREE "+c17Canon(pruned))
 		}
 	}
 	if p2 == "" {
@@ -378,8 +426,28 @@ func opJson(fields []string) string {
 			} else {
 				out = append(out, "FFIELDS ok")
 			}
-			out = append(out, "FTREE "+c17Canon(d2))
+			pruned2, _ := c17Prune(d2)
+			out = append(out, "FTREE "+c17Canon(pruned2))
 		}
+	}
+	// Match.Json() / Match.FormattedJson(): each element on its own is the same object
+	if arr, ok := d1.([]any); ok && e1 == nil && p1 == "" && len(arr) == len(ms) {
+		single := "ok"
+		for i, m := range ms {
+			a, pa := c17Call(m.Json)
+			b, pb := c17Call(m.FormattedJson)
+			if pa != "" || pb != "" {
+				single = hx(fmt.Sprintf("[%d]: Match.Json()/FormattedJson() panics: %s%s", i, pa, pb))
+				break
+			}
+			da, ea := c17Decode(a)
+			db, eb := c17Decode(b)
+			if ea != nil || eb != nil || !reflect.DeepEqual(da, arr[i]) || !reflect.DeepEqual(db, arr[i]) {
+				single = hx(fmt.Sprintf("[%d]: Match.Json()/FormattedJson() is not the list's element", i))
+				break
+			}
+		}
+		out = append(out, "SINGLE "+single)
 	}
 	if p1 == "" && p2 == "" && e1 == nil && e2 == nil {
 		if reflect.DeepEqual(d1, d2) {
